@@ -157,6 +157,18 @@ reg('C02', True,
     'propagator being deterministic), goal-region geometry, PDST/LTL path assembly (listed).',
     'clang 14 AST/CFG of 20 units; the state propagator and validity checker are opaque',
     'value-flow (taint) and typestate over clang CFG + call-site argument agreement')
+reg('C17', True,
+    'Decides structural necessary conditions over PathSimplifier and PathGeometric: every erase/insert/swap/overwrite '
+    'of a path\'s state vector in the seven simplification routines is reached only after a successful motion check on '
+    'the replacing segment; freed index range == erased index range at 13 free/erase pairs; in the cost-aware routines '
+    'the mutation is reached only when the objective comparison favoured the candidate, with old/new argument roles '
+    'frozen per routine; simplify() returns valid || path.check(); subdivide/interpolate keep every original vertex '
+    'once and in order; the along-path cost folds in perturbPath are contiguous; the per-segment insert count in '
+    'interpolate(count) is bounded by the remaining budget on every path; findBetterGoal accounts for the junction '
+    'piece. Not decided: numeric cost values (the objective is opaque), B-spline geometry, hybridization graph search, '
+    'that exactly `count` states result (only the upper bound and the endpoint retention are structural).',
+    'clang 14 AST/CFG of PathSimplifier.cpp, PathGeometric.cpp, PathHybridization.cpp; objective and motion validator opaque',
+    'guard dominance + path-sensitive must-hold facts over clang CFG, linear-normal-form range agreement')
 for _p in ['C06', 'C07', 'C14', 'C15', 'C16',
-           'C17', 'C20']:
+           'C20']:
     reg(_p, False, '', '', '', PENDING)
